@@ -99,6 +99,25 @@ pub fn catalogue() -> Vec<Probe> {
         ] {
             push(name, what.to_string(), format!("(t: {recv}<{va}, {purpose}, P>, k: &Key<{va}, {kk}>, v: &NoValidation<P>) {{ let _ = {call}; }}"), allowed);
         }
+        // ---- every purpose-named operation x token purpose x key kind: the operation must belong to the token's
+        // purpose (verifying an encrypted token is refused even with the key that would decrypt it)
+        for (op, recv, op_purpose, need, call) in [
+            ("verify", "SealedToken", "Public", "Public", "t.verify(k, v)"),
+            ("verify_with_aad", "SealedToken", "Public", "Public", "t.verify_with_aad(k, b\"\", v)"),
+            ("decrypt", "SealedToken", "Local", "Local", "t.decrypt(k, v)"),
+            ("decrypt_with_aad", "SealedToken", "Local", "Local", "t.decrypt_with_aad(k, b\"\", v)"),
+            ("sign", "UnsealedToken", "Public", "Secret", "t.sign(k)"),
+            ("sign_with_aad", "UnsealedToken", "Public", "Secret", "t.sign_with_aad(k, b\"\")"),
+            ("encrypt", "UnsealedToken", "Local", "Local", "t.encrypt(k)"),
+            ("encrypt_with_aad", "UnsealedToken", "Local", "Local", "t.encrypt_with_aad(k, b\"\")"),
+        ] {
+            for purpose in ["Local", "Public"] {
+                for kk in KINDS {
+                    let allowed = purpose == op_purpose && kk == need;
+                    push(name, format!("{op} on a {purpose} {recv} with a {kk} key"), format!("(t: {recv}<{va}, {purpose}, P>, k: &Key<{va}, {kk}>, v: &NoValidation<P>) {{ let _ = v; let _ = {call}; }}"), allowed);
+                }
+            }
+        }
         // ---- wrapping: which key kinds can be wrapped, and with what
         for kk in KINDS {
             let sealing = kk == "Local" || kk == "Secret";
